@@ -10,21 +10,19 @@
    Conventions (as in Model/KeyValues.v): a Go map is an association list whose
    order stands for the hash-iteration order of the run; a result slice that is
    returned as nil when empty is modelled by the empty list; the basket
-   (map[string]bool) is the list of distinct crumbs. *)
+   (map[string]bool) is the list of distinct crumbs.
+   The model follows the repaired code (/repo 5ff47ea, 6251df7, 3b36840, a59bf47). *)
 From Mxj Require Export Model.TreeOps.
 
 (* ================= x2j_findPath.go =================
    func hasKeyPath(crumb string, iv interface{}, key string, basket *map[string]bool)
-   The parameter [crumb] is ASSIGNED when the key is found (crumb = key /
-   crumb += "." + key) and the loop over the entries then builds the children's
-   crumbs from the MUTATED variable.  The model keeps that: [crumb1]. *)
+   (fix 5ff47ea: the hit gets a breadcrumb of its own, `hit`; the parameter `crumb`
+   is no longer assigned and the children's crumbs are built from it) *)
 Fixpoint xw_has_key_path (crumb0 : str) (iv : value) (key : str) : list str :=
   match iv with
   | VMap vv =>
-      let hit := has_key key vv in
-      let crumb1 := if hit then crumb crumb0 key else crumb0 in      (* the mutation *)
-      (if hit then [crumb1] else [])
-      ++ flat_map (fun kv => xw_has_key_path (crumb crumb1 (fst kv)) (snd kv) key) vv
+      (if has_key key vv then [crumb crumb0 key] else [])                  (* hit *)
+      ++ flat_map (fun kv => xw_has_key_path (crumb crumb0 (fst kv)) (snd kv) key) vv
   | VList l => flat_map (fun v => xw_has_key_path crumb0 v key) l    (* crumb-trail doesn't change *)
   | _ => []
   end.
@@ -67,79 +65,65 @@ Fixpoint xw_has_key (iv : value) (key : str) : list value :=
 Definition xw_values_for_key (m : value) (key : str) : list value := xw_has_key m key.
 
 (* ================= x2j_valuesFrom.go ================= *)
-(* flat_map in the result monad: a panic anywhere in the loop is a panic of the call *)
-Fixpoint rflat_map {A B} (f : A -> res (list B)) (l : list A) : res (list B) :=
-  match l with
-  | [] => Ok []
-  | x :: t => bind (f x) (fun a => bind (rflat_map f t) (fun b => Ok (a ++ b)))
-  end.
-
 Definition hyphen : ascii := "-"%char.
-(* string(k[:1]) == "-" && !getAttrs ; k[:1] panics for the empty key *)
-Definition xw_skip_attr (k : str) (getAttrs : bool) : res bool :=
-  match k with
-  | [] => Panic
-  | c :: _ => Ok (Ascii.eqb c hyphen && negb getAttrs)
-  end.
+(* strings.HasPrefix(k, "-") && !getAttrs   (fix 3b36840: was string(k[:1]) == "-", a panic for the empty key) *)
+Definition xw_skip_attr (k : str) (getAttrs : bool) : bool := prefixb [hyphen] k && negb getAttrs.
 
-Fixpoint xw_vfkp (keys : list str) (getAttrs : bool) (m : value) : res (list value) :=
+Fixpoint xw_vfkp (keys : list str) (getAttrs : bool) (m : value) : list value :=
   match keys with
-  | [] => Ok (match m with VList l => l | _ => [m] end)
+  | [] => match m with VList l => l | _ => [m] end
   | key :: rest =>
-      let entry (kv : str * value) : res (list value) :=
-        bind (xw_skip_attr (fst kv) getAttrs) (fun skip =>
-          if skip then Ok [] else xw_vfkp rest getAttrs (snd kv)) in
+      let entry (kv : str * value) : list value :=
+        if xw_skip_attr (fst kv) getAttrs then [] else xw_vfkp rest getAttrs (snd kv) in
       if str_eqb key star then
         match m with
-        | VMap mm => rflat_map entry mm
-        | VList l => rflat_map (fun v => match v with
-                                         | VMap mm => rflat_map entry mm
-                                         | _ => xw_vfkp rest getAttrs v
-                                         end) l
-        | _ => Ok []
+        | VMap mm => flat_map entry mm
+        | VList l => flat_map (fun v => match v with
+                                        | VMap mm => flat_map entry mm
+                                        | _ => xw_vfkp rest getAttrs v
+                                        end) l
+        | _ => []
         end
       else
         match m with
-        | VMap mm => match lookup key mm with Some v => xw_vfkp rest getAttrs v | None => Ok [] end
-        | VList l => rflat_map (fun v => match v with
-                                         | VMap mm => match lookup key mm with
-                                                      | Some vv => xw_vfkp rest getAttrs vv
-                                                      | None => Ok []
-                                                      end
-                                         | _ => Ok []
-                                         end) l
-        | _ => Ok []
+        | VMap mm => match lookup key mm with Some v => xw_vfkp rest getAttrs v | None => [] end
+        | VList l => flat_map (fun v => match v with
+                                        | VMap mm => match lookup key mm with
+                                                     | Some vv => xw_vfkp rest getAttrs vv
+                                                     | None => []
+                                                     end
+                                        | _ => []
+                                        end) l
+        | _ => []
         end
   end.
 
 (* func ValuesFromKeyPath(m, path, getAttrs...) : keys := strings.Split(path, ".") -- no trailing
-   empty segment is dropped, no '[' notation *)
-Definition xw_values_from (m : value) (path : str) (getAttrs : bool) : res (list value) :=
+   empty segment is dropped, no '[' notation; a nil result is the empty list *)
+Definition xw_values_from (m : value) (path : str) (getAttrs : bool) : list value :=
   xw_vfkp (split1 dot path) getAttrs m.
 
 (* ================= x2j_valuesAt.go ================= *)
 Definition xw_map_has (key : str) (v : value) : bool :=
   match v with VMap mm => has_key key mm | _ => false end.
-Definition xw_values_at (m : value) (path : str) (getAttrs : bool) : res (list value) :=
+Definition xw_values_at (m : value) (path : str) (getAttrs : bool) : list value :=
   let keys := split1 dot path in
   let key := last keys [] in                                  (* keys[lenKeys-1] *)
-  bind (match keys with
-        | _ :: _ :: _ => xw_vfkp (removelast keys) getAttrs m   (* lenKeys > 1 *)
-        | _ => Ok [m]
-        end) (fun ret =>
-    match ret with
-    | [] => Ok []                                             (* len(ret) == 0 => nil *)
-    | _ => if str_eqb key star then Ok ret
-           else if existsb (xw_map_has key) ret then Ok ret else Ok []
-    end).
+  let ret := match keys with
+             | _ :: _ :: _ => xw_vfkp (removelast keys) getAttrs m   (* lenKeys > 1 *)
+             | _ => [m]
+             end in
+  match ret with
+  | [] => []                                                  (* len(ret) == 0 => nil *)
+  | _ => if str_eqb key star then ret
+         else if existsb (xw_map_has key) ret then ret else []
+  end.
 
 (* ================= x2j-wrapper/xml.go =================
-   var castNanInf bool ; func CastNanInf(b bool) { castNanInf = b }
-   The flag state is the pair (mxj's package variable, x2j-wrapper's own); every
-   decoder entry point of x2j-wrapper calls mxj.NewMapXml*, which reads mxj's. *)
-Record nanst := { core_castNanInf : bool; own_castNanInf : bool }.
-Definition xw_CastNanInf (b : bool) (st : nanst) : nanst :=
-  {| core_castNanInf := core_castNanInf st; own_castNanInf := b |}.
+   func CastNanInf(b bool) { mxj.CastNanInf(b) }   (fix a59bf47: the private variable is gone)
+   The flag state is mxj's package variable, which every decoder entry point reads. *)
+Record nanst := { core_castNanInf : bool }.
+Definition xw_CastNanInf (b : bool) (st : nanst) : nanst := {| core_castNanInf := b |}.
 Definition decoder_castNanInf (st : nanst) : bool := core_castNanInf st.
 
 (* ================= thin wrapper bodies =================
@@ -175,7 +159,7 @@ Definition leaf_pairs (m : value) : list (str * value) := leaf_nodes attrPrefix 
 
 (* ---- package j2x ---- *)
 Definition j2x_JsonToMap (j : str) : res value := NewMapJson j.
-Definition j2x_MapToJson (m : value) (safeEncoding : bool) : res str := MapJson m false.   (* argument unused *)
+Definition j2x_MapToJson (m : value) (safeEncoding : bool) : res str := MapJson m safeEncoding.   (* fix 6251df7 *)
 Definition j2x_JsonToXml (j : str) : res str :=
   match NewMapJson j with Ok m => MapXml m | Err e => Err e | Panic => Panic end.
 Definition j2x_JsonToXmlWriter (j : str) : res str :=          (* bytes written *)
@@ -342,12 +326,12 @@ Definition xw_PathsForTag (doc key : str) : res (list str) :=
 Definition xw_PathForTagShortest (doc key : str) : res str :=
   match NewMapXml doc false with Ok m => Ok (xw_path_for_key_shortest m key) | Err e => Err e | Panic => Panic end.
 Definition xw_ValuesFromTagPath (doc path : str) (a : bool) : res (list value) :=
-  match NewMapXml doc false with Ok m => xw_values_from m path a | Err e => Err e | Panic => Panic end.
+  match NewMapXml doc false with Ok m => Ok (xw_values_from m path a) | Err e => Err e | Panic => Panic end.
 Definition xw_ValuesAtTagPath (doc path : str) (a : bool) : res (list value) :=
-  match NewMapXml doc false with Ok m => xw_values_at m path a | Err e => Err e | Panic => Panic end.
+  match NewMapXml doc false with Ok m => Ok (xw_values_at m path a) | Err e => Err e | Panic => Panic end.
 Definition xw_ReaderValuesFromTagPath (rd path : str) (a : bool) : res (list value) * str :=
   match NewMapXmlReader rd false with
-  | (Ok m, rest) => (xw_values_from m path a, rest)
+  | (Ok m, rest) => (Ok (xw_values_from m path a), rest)
   | (Err e, rest) => (Err e, rest)
   | (Panic, rest) => (Panic, rest)
   end.
